@@ -163,11 +163,25 @@ class Grammar:
             if i + 1 < len(tiers):
                 nxt = set(tiers[i + 1]["aliases"])
             t["next_aliases"] = nxt
+        # wrappers: a nonterminal outside the chain whose only productions are
+        # the single symbol of one tier (e.g. a boxing helper `Target = Tier`)
+        chain = set()
+        for t in tiers:
+            chain |= set(t["aliases"])
+        wrappers = {}
+        for n, ps in d.items():
+            if n in chain or n in tcl:
+                continue
+            tgt = {s[0] for s, a in ps if len(s) == 1}
+            if len(tgt) == 1 and all(len(s) == 1 for s, a in ps) and next(iter(tgt)) in chain:
+                wrappers[n] = next(iter(tgt))
         # classify productions
         for i, t in enumerate(tiers):
             last = (i == len(tiers) - 1)
             t["infix"], t["postfix"], t["atoms"], t["other"] = [], [], [], []
             own = set(t["aliases"])
+            own |= {w for w, tg in wrappers.items() if tg in own}
+            t["next_aliases"] = set(t["next_aliases"]) | {w for w, tg in wrappers.items() if tg in t["next_aliases"]}
             for syms, act in t["prods"]:
                 if len(syms) == 3 and syms[0] in own and syms[2] in t["next_aliases"] \
                         and (self.is_terminal(syms[1]) or self._op_nonterminal(d, syms[1])):
@@ -177,13 +191,13 @@ class Grammar:
                         ops = [(self.term(s[0]), a) for s, a in d[syms[1]]]
                     t["infix"].append({"ops": ops, "left": syms[0], "right": syms[2],
                                        "action": act, "opnt": None if self.is_terminal(syms[1]) else syms[1]})
-                elif len(syms) >= 2 and syms[0] == t["name"] and self.is_terminal(syms[1]):
+                elif len(syms) >= 2 and syms[0] in own and self.is_terminal(syms[1]):
                     t["postfix"].append({"syms": syms, "action": act})
                 elif last and (self.is_terminal(syms[0]) or syms[0] in tcl):
                     t["atoms"].append({"syms": syms, "action": act})
                 else:
                     t["other"].append({"syms": syms, "action": act})
-        return {"tiers": tiers, "problems": problems, "token_classes": tcl}
+        return {"tiers": tiers, "problems": problems, "token_classes": tcl, "wrappers": wrappers}
 
     def _op_nonterminal(self, d, n):
         ps = d.get(n)
